@@ -362,6 +362,12 @@ class Interp:
             return item in cont
         if isinstance(cont, PProd):
             return self.or_all([self.eq(item, x) for x in cont.slice])
+        import types as _types
+        if isinstance(cont, _types.MappingProxyType):
+            # read-only view of a native mapping (field metadata): native test for a concrete item
+            if is_sym(item):
+                return self.or_all([self.eq(item, k) for k in list(cont.keys())])
+            return item in cont
         if isinstance(cont, OSeq):
             res = []
             for kind, x in cont.segs:
